@@ -137,7 +137,11 @@ func judge(sp Spec, res Result) ([]Finding, judgeStats) {
 	var out []Finding
 	var js judgeStats
 	add := func(key, format string, a ...any) {
-		out = append(out, Finding{Key: key, Msg: "[part " + sp.Part + "] " + fmt.Sprintf(format, a...)})
+		where := "[part " + sp.Part + "] "
+		if sp.Egress != "" {
+			where = "[part " + sp.Part + ", egress policy " + sp.Egress + "] "
+		}
+		out = append(out, Finding{Key: key, Msg: where + fmt.Sprintf(format, a...)})
 	}
 	if res.Stuck {
 		add("terminal:not-reached", "message(s) neither delivered nor dead-lettered within the virtual-time horizon")
@@ -408,6 +412,7 @@ type checker struct {
 	samples  map[string]int
 	maxLag   time.Duration
 	chainMax int
+	hClasses map[string]bool // VERIF_VERBOSE: the distinct classes of part h
 
 	unanswered  bool // a jitter draw did not go through the harness-answered rand.Float64
 	assumptions int  // histories in which a lease mutation failed (outside the statement's assumption)
@@ -471,6 +476,9 @@ func (c *checker) run(sp Spec) Result {
 	}
 	for _, d := range js.distinct {
 		r.Distinct(d)
+		if c.hClasses != nil && strings.HasPrefix(sp.Part, "h") {
+			c.hClasses[d] = true
+		}
 	}
 	if js.lagged > 0 {
 		r.Add("info_retries_scheduled_after_micro_batch_mates", int64(js.lagged))
@@ -505,6 +513,9 @@ func (c *checker) run(sp Spec) Result {
 
 func summary(sp Spec, res Result) map[string]any {
 	out := map[string]any{"part": sp.Part, "store": sp.Store, "conc": sp.Conc, "http": sp.HTTP, "u": sp.U}
+	if sp.Egress != "" {
+		out["egress"] = sp.Egress
+	}
 	for _, m := range sp.Msgs {
 		var l []string
 		for _, s := range res.Logs[m.ID] {
@@ -971,6 +982,10 @@ func TestCheck(t *testing.T) {
 		name string
 		f    func()
 	}{{"a", c.partA}, {"b", c.partB}, {"h", c.partH}, {"g", c.partG}, {"f", c.partF}, {"c", c.partC}, {"d", c.partD}, {"e", c.partWire}} {
+		if only := os.Getenv("VERIF_C06_ONLY"); only != "" && !strings.Contains(","+only+",", ","+part.name+",") {
+			r.NotExhaustive("VERIF_C06_ONLY=" + only + ": part " + part.name + " skipped (development aid)")
+			continue
+		}
 		t0 := time.Now()
 		if part.name == "c" {
 			c.deadline = c.deadline.Add(-15 * time.Second) // keep room for the small parts d and e
